@@ -3,7 +3,6 @@ package patch
 import (
 	"errors"
 	"fmt"
-	"strings"
 
 	dtpb "github.com/google/fhir/go/proto/google/fhir/proto/r4/core/datatypes_go_proto"
 	"github.com/iancoleman/strcase"
@@ -580,15 +579,17 @@ func (e *Expression) getRefAndFieldForCollection(collection system.Collection, t
 func (e *Expression) unwrapOneof(obj proto.Message) proto.Message {
 	message := obj.ProtoReflect()
 	descriptor := message.Descriptor()
-	if name := string(descriptor.Name()); !(strings.HasSuffix(name, "ValueX") || name == "ContainedResource") {
-		return obj
-	}
 	oneofsNum := descriptor.Oneofs().Len()
 	if oneofsNum != 1 {
 		return obj
 	}
 
 	oneof := descriptor.Oneofs().Get(0)
+	// Same rule as the evaluator: the wrapper of a choice element holds its
+	// alternatives in a oneof named "choice".
+	if name := string(descriptor.Name()); !(oneof.Name() == "choice" || name == "ContainedResource") {
+		return obj
+	}
 	field := message.WhichOneof(oneof)
 	if oneof == nil || field == nil {
 		return obj
